@@ -46,12 +46,15 @@ func catalogue(w *world) []*entry {
 	}
 	S := func(s ...string) []string { return s }
 	slow := func(e *entry) { e.chunk = 64 }
+	// entry points whose every call costs tens of milliseconds under the race detector (generic P-384/P-521, RSA
+	// private-key operations): small cases, so that a case stays far below the watchdog limit on a loaded machine
+	verySlow := func(e *entry) { e.chunk = 16 }
 
 	// ---------------------------------------------------------------- sm2
 	pubA := &w.sm2A.PublicKey
 	add("sm2.VerifyASN1WithSM2", S("sm2.sig"), func(b []byte) bool { return sm2.VerifyASN1WithSM2(pubA, nil, w.msg, b) })
 	add("sm2.VerifyASN1", S("sm2.sig.digest"), func(b []byte) bool { return sm2.VerifyASN1(pubA, w.digest, b) })
-	add("sm2.VerifyASN1/legacy-p384", S("sm2.legacy.p384.sig"), func(b []byte) bool { return sm2.VerifyASN1(&w.nistP384.PublicKey, w.digest, b) })
+	verySlow(add("sm2.VerifyASN1/legacy-p384", S("sm2.legacy.p384.sig"), func(b []byte) bool { return sm2.VerifyASN1(&w.nistP384.PublicKey, w.digest, b) }))
 	add("sm2.RecoverPublicKeysFromSM2Signature", S("sm2.sig.digest"), func(b []byte) bool {
 		_, err := sm2.RecoverPublicKeysFromSM2Signature(w.digest, b)
 		return err == nil
@@ -73,18 +76,22 @@ func catalogue(w *world) []*entry {
 		k *sm2.PrivateKey
 	}{{"p256", w.nistP256}, {"p521", w.nistP521}} {
 		k := v.k
-		add("sm2.Decrypt/legacy-"+v.n, S("sm2.legacy."+v.n+".ct.c1c3c2", "sm2.legacy."+v.n+".ct.asn1"), func(b []byte) bool {
+		pace := slow
+		if v.n == "p521" {
+			pace = verySlow
+		}
+		pace(add("sm2.Decrypt/legacy-"+v.n, S("sm2.legacy."+v.n+".ct.c1c3c2", "sm2.legacy."+v.n+".ct.asn1"), func(b []byte) bool {
 			_, err := sm2.Decrypt(k, b)
 			return err == nil
-		})
-		add("sm2.PrivateKey.Decrypt/legacy-"+v.n+"/C1C2C3", S("sm2.legacy."+v.n+".ct.c1c2c3"), func(b []byte) bool {
+		}))
+		pace(add("sm2.PrivateKey.Decrypt/legacy-"+v.n+"/C1C2C3", S("sm2.legacy."+v.n+".ct.c1c2c3"), func(b []byte) bool {
 			_, err := k.Decrypt(nil, b, sm2.NewPlainDecrypterOpts(sm2.C1C2C3))
 			return err == nil
-		})
-		add("sm2.PrivateKey.Decrypt/legacy-"+v.n+"/ASN1opts", S("sm2.legacy."+v.n+".ct.asn1"), func(b []byte) bool {
+		}))
+		pace(add("sm2.PrivateKey.Decrypt/legacy-"+v.n+"/ASN1opts", S("sm2.legacy."+v.n+".ct.asn1"), func(b []byte) bool {
 			_, err := k.Decrypt(nil, b, sm2.ASN1DecrypterOpts)
 			return err == nil
-		})
+		}))
 	}
 	add("sm2.ASN1Ciphertext2Plain", S("sm2.ct.asn1"), func(b []byte) bool {
 		_, err := sm2.ASN1Ciphertext2Plain(b, nil)
@@ -400,7 +407,7 @@ func catalogue(w *world) []*entry {
 		p7cheap(p, false, true, false, false)
 		return true
 	})
-	add("pkcs7.Parse+Decrypt/rsa", S("p7.enveloped.rsa.aes128cbc", "p7.enveloped.rsa.aes256gcm"), func(b []byte) bool {
+	verySlow(add("pkcs7.Parse+Decrypt/rsa", S("p7.enveloped.rsa.aes128cbc", "p7.enveloped.rsa.aes256gcm"), func(b []byte) bool {
 		p, err := pkcs7.Parse(b)
 		if err != nil {
 			return false
@@ -408,7 +415,7 @@ func catalogue(w *world) []*entry {
 		p.Decrypt(w.rsaCert, w.rsa1)
 		p7cheap(p, false, true, false, false)
 		return true
-	})
+	}))
 	add("pkcs7.Parse+DecryptUsingPSK", S("p7.encrypted.sm4cbc", "p7.encrypted.sm4gcm", "p7.encrypted.aes128cbc"), func(b []byte) bool {
 		p, err := pkcs7.Parse(b)
 		if err != nil {
@@ -428,7 +435,7 @@ func catalogue(w *world) []*entry {
 		p7cheap(p, false, false, false, true)
 		return true
 	})
-	add("pkcs7.Parse+DecryptAndVerify/rsa", S("p7.saed.rsa"), func(b []byte) bool {
+	verySlow(add("pkcs7.Parse+DecryptAndVerify/rsa", S("p7.saed.rsa"), func(b []byte) bool {
 		p, err := pkcs7.Parse(b)
 		if err != nil {
 			return false
@@ -436,7 +443,7 @@ func catalogue(w *world) []*entry {
 		p.DecryptAndVerify(w.rsaCert, w.rsa1, func() error { return p.Verify() })
 		p7cheap(p, false, false, false, true)
 		return true
-	})
+	}))
 	add("pkcs7.VerifBER2DER(hook)", S("p7.signed.sm2.ber", "p7.signed.sm2.noattr", "p7.encrypted.sm4cbc"), func(b []byte) bool {
 		_, err := pkcs7.VerifBER2DER(b)
 		return err == nil
